@@ -1,7 +1,7 @@
 """C04 Code, tags, URLs and other non-prose spans are reproduced verbatim (structural clauses)."""
 
 from ..report import Ctx
-from ..rules import render, rewrite, wrap
+from ..rules import fence, render, rewrite, wrap
 
 EXPLANATION = (
     "Decided: (R-ENCODE-verbatim) forward taint from every verbatim field (code text, info string, labels, destinations, titles, "
@@ -10,7 +10,7 @@ EXPLANATION = (
     "lower/replace/re.sub/slices are reported with the operation and its site; (R-ENCODE) code-span delimiter sized from the "
     "content, titles quote-escaped, destinations through the angle-bracket encoder, cells pipe-escaped; (R-BOUND) a one-symbol "
     "lower-bound domain shows the emitted fence is at least (longest fence-like run + 1) long, with the same character scanned "
-    "and emitted and the scan applied to the emitted text; (R-FIELD) lang/extra/fence_char/fence_len/dest/title/label reach the "
+    "and emitted and the scan applied to the emitted text; (R-FENCE) the parser subclass that records the fence decides whether a line closes the block on the source line as read (before the opener's indentation is removed), with marko's closing pattern and the contains-the-opening-run test; (R-FIELD) lang/extra/fence_char/fence_len/dest/title/label reach the "
     "output; (R-REWRITE) text rewrites write only into nodes proven RawText, the tree walk cannot reach code/HTML/literal/"
     "autolink/ref-def classes (MRO aware), every rewriter protects template tags; (R-LOSSLESS-L5) placeholders of atomic "
     "constructs are restored on every path of the word splitter. Not decided: normalisation done inside marko while parsing "
@@ -25,6 +25,7 @@ def run(ctx: Ctx) -> None:
     ctx.rule("R-ENCODE-dest", "link/image destinations pass through an encoder, never the bare attribute")
     ctx.rule("R-ENCODE-cell", "table cell text has the pipe re-escaped")
     ctx.rule("R-BOUND", "emitted fence length >= longest fence-like run + 1, same fence character, scan over the emitted text")
+    ctx.rule("R-FENCE", "a fenced block ends where marko says: the closing test reads the source line, not a de-indented copy")
     ctx.rule("R-FIELD", "verbatim fields reach the output")
     ctx.rule("R-REWRITE-store", "text is written only into nodes proven RawText")
     ctx.rule("R-REWRITE-segments", "only RawText segments are mutable")
@@ -35,6 +36,7 @@ def run(ctx: Ctx) -> None:
     ctx.rule("R-LOSSLESS-L5", "placeholders of atomic constructs are restored on every path")
     ctx.run(render.check_encode)
     ctx.run(render.check_fence_bound)
+    ctx.run(fence.check_fence_parse)
     ctx.run(render.check_fields, {"lang", "extra", "fence_char", "fence_len", "dest", "title", "label", "body", "alert_type",
                                   "CodeSpan.children", "InlineHTML.children", "Literal.children", "CodeBlock.children", "CustomFencedCode.children"})
     ctx.run(rewrite.check_rewrite_scope)
